@@ -100,6 +100,8 @@ func checkC17(c *core.Ctx) {
 	used := map[string]int64{}
 	accepted := map[string]int64{}
 	var mu sync.Mutex
+	// first the small hand-kept family (a deadline then cuts only the tail of the big enumeration)
+	c17TypeGroups(c, sc, tiny, fc, foiPath)
 	for k := 0; k <= maxK; k++ {
 		if c.Expired() || c.TooManyViolations() {
 			c.NotExhaustive(fmt.Sprintf("k=%d not started", k))
@@ -182,9 +184,6 @@ func checkC17(c *core.Ctx) {
 		}
 		c17RunChunk(c, sc, tiny, fc, foiPath, cc, used, accepted, &mu)
 		c.Set("scale_family_programs", len(cc))
-	}
-	if !c.Expired() && !c.TooManyViolations() {
-		c17TypeGroups(c, sc, tiny, fc, foiPath)
 	}
 	c.Set("by_construct_generated", used)
 	c.Set("by_construct_accepted_by_tinyfo", accepted)
